@@ -42,3 +42,7 @@ add("C20", "exploration",
     "Bounded exploration: systematic small netlists x start lists x directions x DFS/BFS x hook sets against independent reachability / order oracles (each once, dependency order, enter-before-exit, post-order exits, unvisited = complement in topological order, end hook), and random cyclic netlists for the cycle check.",
     "No value dimension: enumerated, not solved. Bounded: systematic <=2 inputs/<=3 gates, seeded <=4 inputs/<=10 gates, cyclic <=5 gates.",
     "bounded exploration vs independent oracles", "DESIGN.md §3 C20")
+add("C07", "other",
+    "Bounded SMT: each summation generator is run for an enumerated configuration (n / weight vector / basis spelling / endianness / host kind) and z3 decides the bit-vector identity sum(out_i*2^level_i) = sum(in_j*2^w_j) (a + b*2^shift for the adders) for all operand values, operands being cut points in the host; fresh-gates-only, basis, gate-count bounds, distinct levels, unchanged old gates are checked per instance.",
+    "Trusted: CPython, z3, proxies. Bounded: bit count n<=32; weighted sums n<=40, weights<=8 (exhaustive n<=4,w<=3 thorough); adders widths<=10 all shifts 0..n+3, spot 16..64. n=64 bit count outside.",
+    "bounded SMT (bit-vector identity over real evaluator terms with cut points)", "DESIGN.md §3 C07")
